@@ -86,11 +86,21 @@ KeyOf(f) == LET ci == CHOOSE i \in 1..NC : ComboSeq[i] = <<f.db, f.meas>>
                 b  == CHOOSE x \in f.pts : \A y \in f.pts : x >= y
             IN Key(ci, li, a, b)
 
+\* File names: a file is called by its ordinal inside its partition directory, so files of one measurement
+\* in DIFFERENT partition directories share a base name (arc's names embed a timestamp, but compaction
+\* outputs and imports can collide); only the full path identifies a file.
+PartOf(loc, x) == IF loc = "hour" THEN HourOf(x) ELSE DayOf(x)
+FilePart(f)    == PartOf(f.loc, CHOOSE x \in f.pts : TRUE)
+NameIn(db, m, loc, part) ==
+    LET S == {g.name : g \in {g \in files : g.db = db /\ g.meas = m /\ g.loc = loc /\ FilePart(g) = part}}
+    IN IF S = {} THEN 0 ELSE 1 + (CHOOSE x \in S : \A y \in S : x >= y)
+
 AddFile ==
     /\ pc = "build" /\ Cardinality(files) < n
     /\ \E ci \in 1..NC, li \in 1..2, a \in Points :
          \E b \in a..NP :
-           LET f == [id |-> nextId, db |-> ComboSeq[ci][1], meas |-> ComboSeq[ci][2], loc |-> Locs[li], pts |-> {a, b}, cnt |-> Cardinality({a, b})]
+           LET f == [id |-> nextId, db |-> ComboSeq[ci][1], meas |-> ComboSeq[ci][2], loc |-> Locs[li], pts |-> {a, b}, cnt |-> Cardinality({a, b}),
+                     name |-> NameIn(ComboSeq[ci][1], ComboSeq[ci][2], Locs[li], PartOf(Locs[li], a))]
            IN /\ IF li = 1 THEN HourOf(a) = HourOf(b) ELSE DayOf(a) = DayOf(b)      \* rows stay inside the partition
               /\ Canon => \A g \in files : KeyOf(g) <= Key(ci, li, a, b)
               /\ files' = files \cup {f}
@@ -122,7 +132,7 @@ Compact ==
     /\ \E ci \in 1..NC, d \in 1..4 :
          LET db == ComboSeq[ci][1]  m == ComboSeq[ci][2]  src == HourFiles(db, m, d)
              nf == [id |-> nextId, db |-> db, meas |-> m, loc |-> "day", pts |-> UNION {f.pts : f \in src},
-                    cnt |-> RowCount(src)]
+                    cnt |-> RowCount(src), name |-> NameIn(db, m, "day", d)]
          IN /\ src # {}
             /\ files' = (files \ src) \cup {nf}
             /\ last' = [kind |-> "compact", cut |-> cut, before |-> files, after |-> files']
